@@ -1,7 +1,10 @@
 """C02 — assignments and control flow: last active assignment wins, per bit.
-Designs are written in the Module DSL (If/Elif/Else, Switch/Case/Default, nested, mixed comb/sync bodies) from a
-generated program tree; the real simulator's trace is compared with (a) the model lowering + RTL process semantics
-and (b) for comb logic the per-bit "last active assignment wins over init" specification."""
+Designs are written in the Module DSL (If/Elif/Else, Switch/Case/Default with raw patterns, FSM/State/m.next/ongoing(),
+nested, several clock domains, several modules) from a generated program tree.  The program goes to the Gallina model AS
+WRITTEN (coq/Model/DslRaw.v: rstmt / rfsm / ritem): the model normalises the patterns, allocates the FSM encoding,
+derives the state register's shape and init, lowers everything and runs the simulator's delta-cycle loop.  The real
+simulator's trace is compared with (a) that model and (b) for comb logic the per-bit "last active assignment wins over
+init" specification."""
 import random
 from common import z, zlist, blit
 import exprgen as G
@@ -12,76 +15,101 @@ LEVEL = "proof"
 PROPS_FILE = "C02.v"
 RUN_MODULE = "RunC02"
 TRANSLATOR_UNITS = ["dsl"]
-SHARD = 120
-RULE = ("seeded random DSL programs: nesting depth<=3 of If/Elif/Else (multi-bit and signed conditions), Switch/Case (ints incl. "
-        "negative and unrepresentable, multiple patterns, '-' strings with whitespace, empty Case, Default in the middle), "
-        "FSM with 1-4 states (init=, ongoing() before definition, m.next under conditions, encoding by first reference), assignments to nested linear targets (Slice/Part/Cat/array/u/s) in comb and one sync domain (reset, reset-less signals), "
-        "mixed-domain bodies; 12-24 events (input changes, clock ticks, reset toggles); all signals read after every event; plus "
-        "an exhaustive family: all 2-assignment programs over two 2-bit signals under one 1-bit condition x all inputs. "
-        "non-trivial = accepted program whose observed trace is not constant; distinct by case hash")
-MODELLED = ("Module._pop_ctrl lowering of If/Switch (coq/Model/Dsl.v), _StatementCompiler/_LHSValueCompiler (Stmt.v), "
-            "_FragmentCompiler comb/sync processes, LHSMaskCollector and slot update/commit (Process.v). The context-manager "
-            "bookkeeping of Module and which domains get a Switch are exercised by the differential run only; the three "
-            "_pop_ctrl branches (If/Switch/FSM) and the FSM encoding allocation in State/next/ongoing are also regenerated "
-            "from hdl/_dsl.py (translator unit dsl, Gen/DslGen.v) and proved equal to Dsl.v (lower, lower_fsm, fsm_ref); "
-            "pattern normalisation of Case() is the _normalize_patterns model of C01 (unit derived)")
-ASSUMPTIONS = ["targets are linear (known finding F9 for aliased targets)", "designs have no combinational loops"]
+SHARD = 60
+RULE = ("seeded random DSL designs: 1-3 modules (submodules of the top module or of each other) driving disjoint signals; comb + 1-3 "
+        "clock domains (posedge / negedge, synchronous / asynchronous / no reset), every sync signal in one domain; nesting depth<=3 of "
+        "If/Elif/Else (multi-bit and signed conditions, conditions may read comb signals), Switch/Case with RAW patterns (ints incl. negative "
+        "and unrepresentable, Enum members, several patterns, '-' strings with spaces and tabs, empty Case, Default in the middle; test up to 5 bits), "
+        "FSM with 0-4 states in any clock domain (init=, ongoing() before definition, ongoing() read inside and after the FSM, m.next under If and "
+        "Switch, encoding by first reference; register width, signedness and init compared), assignments to nested linear targets "
+        "(Slice/Part/Cat/array/u/s; signals up to 9 bits) ; 12-24 events (input changes, clock edges one signal at a time so both "
+        "edges are observed, two clocks at once, reset pulses); all signals read after every event; malformed designs (bad pattern "
+        "width / character, m.next outside an FSM, undefined / duplicate / unknown-init FSM states) compared on the exception class; "
+        "an exhaustive family: all 2-assignment programs over two 2-bit signals under one 1-bit condition x all inputs; aliased targets "
+        "(spec and simulator semantics both modelled). non-trivial = accepted design whose observed trace is not constant; distinct by case hash")
+MODELLED = ("Module._pop_ctrl lowering of If/Switch/FSM, FSM state encoding, m.next, ongoing(), Case pattern normalisation "
+            "(coq/Model/Dsl.v, DslRaw.v, Derived.v normalize_patterns), _StatementCompiler/_LHSValueCompiler (Stmt.v), "
+            "_FragmentCompiler comb / clock-domain processes, LHSMaskCollector, slot update/commit (Process.v), the delta-cycle loop and "
+            "edge wakers of the simulator (DslRaw.v run_design). The context-manager bookkeeping of Module (which with-block is open) is "
+            "the harness builder's")
+ASSUMPTIONS = ["targets are linear (known finding F9 for aliased targets)", "designs have no combinational loops",
+               "clock and reset signals are driven by the testbench only"]
+
+ECODE = {"TypeError": 0, "ValueError": 0, "IndexError": 0, "SyntaxError": 1, "NameError": 2, "KeyError": 3}
 
 
 def classify(c):
     return c["k"] + ":" + c.get("shape", "")
 
 
+def nrows(c, obs):
+    return None
+
+
 def nontrivial(c, obs):
     if not obs or obs[0] != 1:
-        return False
-    n = c["nsig"] if c["k"] not in ("combspec", "aliasspec") else len(c["driven"])
-    rows = [tuple(obs[1 + i:1 + i + n]) for i in range(0, len(obs) - 1, n)]
+        return c["k"] == "bad" and obs[:1] == [0]
+    if c["k"] == "alias":
+        obs = obs[:obs.index(-99)]
+    n = c["nsig"] if c["k"] in ("dsl", "stmts") else len(c["driven"])
+    body = obs[1 + 3 * c.get("nfsm", 0):] if c["k"] == "dsl" else obs[1:]
+    rows = [tuple(body[i:i + n]) for i in range(0, len(body), n)]
     return len(set(rows)) > 1
 
 
-# ------------------------------------------------------------------ pattern normalisation (harness-side)
-def norm_patterns(pats, w, signed):
-    """mirror of what a Switch ends up matching: list of strings over 01- (possibly empty = never)"""
-    out = []
-    for p in pats:
-        if isinstance(p, str):
-            out.append("".join(p.split()))
-        else:
-            lo, hi = (-(1 << (w - 1)), 1 << (w - 1)) if signed else (0, 1 << w)
-            if w == 0:
-                lo, hi = 0, 1
-            if lo <= p < hi:
-                out.append(format(p & ((1 << w) - 1), "b").rjust(w, "0") if w else "")
-    return out
-
-
-# ------------------------------------------------------------------ program generation
+# ------------------------------------------------------------------ design generation
 class PGen:
-    def __init__(self, rng, nin, ncomb, nsync):
+    """signal layout: inputs | comb-driven | sync-driven | (clk, rst?) per domain | per FSM: register, ongoing signals"""
+    def __init__(self, rng, nin, ncomb, nsync, ndom=1, nmod=1, plain=False):
         self.rng = rng
-        self.shapes = []
-        self.inits = []
-        self.rl = []
+        self.shapes, self.inits, self.rl = [], [], []
         for k in range(nin + ncomb + nsync):
-            w, s = G.rand_shape(rng, 4, allow_zero=(k >= nin))
+            maxw = 9 if (not plain and rng.random() < 0.12) else 4
+            w, s = G.rand_shape(rng, maxw, allow_zero=(k >= nin))
             self.shapes.append([w, s])
             self.inits.append(G.rand_value(rng, w, s) if k >= nin else 0)
             self.rl.append(k >= nin + ncomb and rng.random() < 0.3)
         self.inputs = list(range(nin))
         self.combs = list(range(nin, nin + ncomb))
         self.syncs = list(range(nin + ncomb, nin + ncomb + nsync))
-        self.rst = nin + ncomb + nsync
-        self.shapes.append([1, False]); self.inits.append(0); self.rl.append(False)
+        self.nmod = nmod
+        self.parent = [None] + [rng.randrange(0, k) for k in range(1, nmod)]
+        self.named = [rng.random() < 0.5 for _ in range(nmod)]
+        self.mod_of = {i: rng.randrange(nmod) for i in self.combs + self.syncs}
+        # clock domains (index 1..ndom; 0 is comb)
+        self.doms = []
+        for k in range(ndom if nsync else 0):
+            clk = len(self.shapes)
+            self.shapes.append([1, False]); self.inits.append(0); self.rl.append(False)
+            if plain or k == 0 and rng.random() < 0.5:
+                pos, kind = True, "sync"
+            else:
+                pos = rng.random() < 0.5
+                kind = rng.choice(["sync", "async", "none"])
+            rst = None
+            if kind != "none":
+                rst = len(self.shapes)
+                self.shapes.append([1, False]); self.inits.append(0); self.rl.append(False)
+            self.doms.append({"clk": clk, "pos": pos, "rst": rst, "async": kind == "async",
+                              "name": "sync" if k == 0 else f"d{k + 1}"})
+        self.dom_of = {i: rng.randrange(1, len(self.doms) + 1) for i in self.syncs} if self.doms else {}
+        self.nbase = len(self.shapes)
+        self.extra_read = []
+        self.comb_floor = -1
+        self.fsms = []
+        self.cur_fsm = None
 
+    # ---- expressions
     def rexpr(self, readable, depth=2):
+        readable = list(readable) + self.extra_read
         g = G.Gen(self.rng, self.shapes, maxw=4, maxtotal=12)
         for _ in range(30):
             e = g.expr(self.rng.randrange(0, depth + 1))
             if set(G.sig_ids(e)) <= set(readable):
                 return e
-        i = self.rng.choice(readable)
-        return ["s", i]
+        if not readable:
+            return ["c", 1, 1, False]
+        return ["s", self.rng.choice(readable)]
 
     def target(self, pool):
         """a linear target over the signals in pool"""
@@ -94,7 +122,6 @@ class PGen:
             tg.free = list(range(len(sub)))
             t = tg.target(r.randrange(0, 3))
             if t is not None and is_linear(t):
-                # remap local indices: target signals -> sub[k], selector inputs -> inputs[k]
                 return self.remap(t, sub, len(sub))
         return ["s", sub[0]]
 
@@ -118,365 +145,505 @@ class PGen:
             return ["sw", self.remap(t[1], sub, nt), [[ps, self.remap(e, sub, nt)] for ps, e in t[2]]]
         raise ValueError(k)
 
-    def assign(self):
+    # ---- statements of module `mod`
+    def assign(self, mod):
         r = self.rng
-        if self.syncs and (not self.combs or r.random() < 0.45):
-            t = self.target(self.syncs)
-            return ["as", "sync", t, self.rexpr(self.inputs + self.combs + self.syncs)]
-        if not self.combs:
+        syncs = [i for i in self.syncs if self.mod_of[i] == mod]
+        combs = [i for i in self.combs if self.mod_of[i] == mod and i > self.comb_floor]
+        if syncs and (not combs or r.random() < 0.45):
+            d = self.dom_of[r.choice(syncs)]
+            t = self.target([i for i in syncs if self.dom_of[i] == d])
+            return ["as", d, t, self.rexpr(self.inputs + self.combs + self.syncs)]
+        if not combs:
             return None
-        t = self.target(self.combs)
-        lowest = min([i for i in G.sig_ids(t) if i in self.combs] or [min(self.combs)])
+        t = self.target(combs)
+        lowest = min([i for i in G.sig_ids(t) if i in self.combs] or [min(combs)])
         readable = self.inputs + self.syncs + [c for c in self.combs if c < lowest]
-        return ["as", "comb", t, self.rexpr(readable or [0])]
+        return ["as", 0, t, self.rexpr(readable)]
 
     def cond(self):
-        return self.rexpr(self.inputs + self.syncs or [0], depth=1)
-
-    def add_fsm(self):
-        """one FSM in the sync domain: state register and ongoing() signals become extra signals after rst"""
+        """a condition / switch test; may read comb signals, which then may not be assigned (comb) underneath"""
         r = self.rng
-        n = r.randrange(1, 5)
-        names = [f"S{k}" for k in range(n)]
-        order = names[:]
-        r.shuffle(order)
-        pre = [x for x in names if r.random() < 0.3]
-        r.shuffle(pre)
-        init = r.choice(names) if r.random() < 0.4 else None
-        self.fsm_names = names
-        states = []
-        for nm in order:
-            body = self.stmts(2, n=r.randrange(0, 3))
-            # sprinkle m.next assignments, some under conditions
-            for _ in range(r.randrange(0, 3)):
-                tgt = r.choice(names)
-                if r.random() < 0.5:
-                    body.append(["next", tgt])
-                else:
-                    body.append(["if", [[self.cond(), [["next", tgt]]]], False, []])
-            r.shuffle(body)
-            states.append([nm, body])
-        # encoding: order of first reference (ongoing() calls before the states, then State / m.next in program order)
-        enc = {}
-        for nm in pre:
-            enc.setdefault(nm, len(enc))
+        readable = self.inputs + self.syncs
+        if self.combs and r.random() < 0.3:
+            readable = readable + [c for c in self.combs if c <= r.choice(self.combs)]
+        e = self.rexpr(readable or [0], depth=1)
+        cr = [i for i in G.sig_ids(e) if i in self.combs]
+        return e, (max(cr) if cr else -1)
 
-        def walk(stmts):
-            for st in stmts:
-                if st[0] == "next":
-                    enc.setdefault(st[1], len(enc))
-                elif st[0] == "if":
-                    for _, b in st[1]:
-                        walk(b)
-                    walk(st[3])
-                elif st[0] == "switch":
-                    for _, b in st[2]:
-                        walk(b)
-        for nm, body in states:
-            enc.setdefault(nm, len(enc))
-            walk(body)
-        # every referenced state must be defined: all names are defined here
-        ne = len(enc)
-        w = 1 if ne <= 1 else (ne - 1).bit_length()
-        first = states[0][0]
-        st_idx = len(self.shapes)
-        self.shapes.append([w, False]); self.inits.append(enc[init if init is not None else first]); self.rl.append(False)
-        og = {}
-        for nm in order:
-            og[nm] = len(self.shapes)
-            self.shapes.append([1, False]); self.inits.append(0); self.rl.append(False)
-        return ["fsm", {"init": init, "pre": pre, "states": states, "enc": enc, "w": w, "st": st_idx, "og": og}]
+    def raw_patterns(self, w, sg):
+        r = self.rng
+        pats = []
+        for _ in range(r.randrange(0, 3)):
+            q = r.random()
+            if q < 0.4:
+                pats.append(r.randrange(-(1 << w) - 1, (1 << w) + 2))
+            elif q < 0.55:
+                pats.append(["enum", r.randrange(-(1 << w) - 1, (1 << w) + 2)])
+            else:
+                p = "".join(r.choice("01-") for _ in range(w))
+                for _ in range(r.randrange(0, 3) if r.random() < 0.35 else 0):
+                    k = r.randrange(0, len(p) + 1)
+                    p = p[:k] + r.choice(" \t") + p[k:]
+                pats.append(p)
+        return pats
 
-    def stmts(self, d, n=None):
+    def stmts(self, d, mod, n=None):
         r = self.rng
         out = []
         for _ in range(n if n is not None else r.randrange(0, 4)):
             c = r.random()
-            if d <= 0 or c < 0.5:
-                a = self.assign()
+            if self.cur_fsm is not None and c < 0.18:
+                out.append(["next", r.choice(self.cur_fsm)])
+            elif d <= 0 or c < 0.5:
+                a = self.assign(mod)
                 if a:
                     out.append(a)
             elif c < 0.78:
-                brs = [[self.cond(), self.stmts(d - 1)] for _ in range(r.randrange(1, 4))]
+                brs = []
+                floor0 = self.comb_floor
+                for _ in range(r.randrange(1, 4)):
+                    cnd, cr = self.cond()
+                    self.comb_floor = max(self.comb_floor, cr)      # later conditions are evaluated too: keep the floor
+                    brs.append([cnd, None])
+                for br in brs:
+                    br[1] = self.stmts(d - 1, mod)
                 has_else = r.random() < 0.5
-                out.append(["if", brs, has_else, self.stmts(d - 1) if has_else else []])
+                els = self.stmts(d - 1, mod) if has_else else []
+                self.comb_floor = floor0
+                out.append(["if", brs, has_else, els])
             else:
-                test = self.cond()
+                test, cr = self.cond()
                 w, sg = G.pyshape(test, self.shapes)
-                if w > 3:
-                    test = ["sl", test, 0, 3]
-                    w, sg = 3, False
+                lim = 5 if r.random() < 0.15 else 3
+                if w > lim:
+                    test = ["sl", test, 0, lim]
+                    w, sg = lim, False
+                floor0 = self.comb_floor
+                self.comb_floor = max(self.comb_floor, cr)
                 cases = []
                 for _ in range(r.randrange(1, 5)):
-                    q = r.random()
-                    if q < 0.15:
-                        pats = None       # Default
-                    else:
-                        pats = []
-                        for _ in range(r.randrange(0, 3)):
-                            if r.random() < 0.5:
-                                lo = -(1 << w) if True else 0
-                                pats.append(r.randrange(-(1 << w) - 1, (1 << w) + 2))
-                            else:
-                                p = "".join(r.choice("01-") for _ in range(w))
-                                if w >= 2 and r.random() < 0.3:
-                                    p = p[:1] + " " + p[1:]
-                                pats.append(p)
-                    cases.append([pats, self.stmts(d - 1)])
+                    pats = None if r.random() < 0.15 else self.raw_patterns(w, sg)
+                    cases.append([pats, self.stmts(d - 1, mod)])
+                self.comb_floor = floor0
                 out.append(["switch", test, cases])
         return out
 
+    def add_fsm(self, mod):
+        """one FSM in a clock domain; the state register and the ongoing() signals are new signals"""
+        r = self.rng
+        n = r.choice([0, 1, 1, 2, 2, 3, 3, 4])
+        names = list(range(n))
+        order = names[:]
+        r.shuffle(order)
+        pre = [x for x in names if r.random() < 0.3]
+        r.shuffle(pre)
+        init = r.choice(names) if names and r.random() < 0.4 else None
+        dom = r.randrange(1, len(self.doms) + 1)
+        reg = len(self.shapes)
+        self.shapes.append([1, False]); self.inits.append(0); self.rl.append(False)     # shape / init are the model's to say
+        og = {}
+        for nm in order:
+            og[nm] = len(self.shapes)
+            self.shapes.append([1, False]); self.inits.append(0); self.rl.append(False)
+        states = []
+        saved = list(self.extra_read)
+        self.extra_read = saved + [og[nm] for nm in pre]
+        self.cur_fsm = names
+        for nm in order:
+            states.append([nm, self.stmts(2, mod, n=r.randrange(0, 4))])
+        self.cur_fsm = None
+        self.extra_read = saved + [og[nm] for nm in order]            # after the FSM every ongoing() signal can be read
+        f = {"reg": reg, "dom": dom, "init": init, "pre": pre, "states": states, "og": [[nm, og[nm]] for nm in order]}
+        self.fsms.append(f)
+        return ["fsm", f]
 
-def project(stmts, dom, shapes, fsm=None):
-    """the per-domain program the model sees; patterns normalised; FSMs become a Switch on the state register,
-    m.next an assignment of the encoding (in the FSM's domain: sync), ongoing() signals top-level comb compares"""
-    out = []
-    for s in stmts:
-        if s[0] == "fsm":
-            f = s[1]
-            cases = [[[G._binpat(f["w"], f["enc"][nm])], project(body, dom, shapes, f)] for nm, body in f["states"]]
-            out.append(["switch", ["s", f["st"]], cases])
-            if dom == "comb":
-                for nm, k in f["enc"].items():
-                    out.append(["as", ["s", f["og"][nm]], ["o2", "==", ["s", f["st"]],
-                                                           ["c", k, max(1, k.bit_length()), False]]])
-            continue
-        if s[0] == "next":
-            if dom == "sync":
-                k = fsm["enc"][s[1]]
-                out.append(["as", ["s", fsm["st"]], ["c", k, max(1, k.bit_length()), False]])
-            continue
-        if s[0] == "as":
-            if s[1] == dom:
-                out.append(["as", s[2], s[3]])
-        elif s[0] == "if":
-            out.append(["if", [[c, project(b, dom, shapes, fsm)] for c, b in s[1]], s[2], project(s[3], dom, shapes, fsm)])
-        elif s[0] == "switch":
-            w, sg = G.pyshape(s[1], shapes)
-            out.append(["switch", s[1], [[None if p is None else norm_patterns(p, w, sg), project(b, dom, shapes, fsm)]
-                                         for p, b in s[2]]])
-    return out
+    def module(self, mod, want_fsm):
+        r = self.rng
+        prog = self.stmts(r.randrange(1, 4), mod, n=r.randrange(1, 5))
+        if want_fsm:
+            prog.append(self.add_fsm(mod))
+            prog += self.stmts(r.randrange(1, 3), mod, n=r.randrange(0, 3))
+        return prog
 
+    def events(self, n):
+        r = self.rng
+        evs = []
+        for _ in range(n):
+            c = r.random()
+            if c < 0.4 and self.inputs:
+                i = r.choice(self.inputs)
+                evs.append([[i, G.rand_value(r, *self.shapes[i])]])
+            elif c < 0.8 and self.doms:
+                d = r.choice(self.doms)
+                evs.append([[d["clk"], 1]]); evs.append([[d["clk"], 0]])
+            elif c < 0.86 and len(self.doms) >= 2:
+                a, b = r.sample(self.doms, 2)
+                v = r.randrange(2)
+                evs.append([[a["clk"], v], [b["clk"], r.randrange(2)]])
+                evs.append([[a["clk"], 1 - v], [b["clk"], r.randrange(2)]])
+            elif self.doms:
+                rs = [d["rst"] for d in self.doms if d["rst"] is not None]
+                if rs:
+                    evs.append([[r.choice(rs), r.randrange(2)]])
+            elif self.inputs:
+                i = r.choice(self.inputs)
+                evs.append([[i, G.rand_value(r, *self.shapes[i])]])
+        return evs
 
-def coq_dstmts(stmts, shapes):
-    return "[" + "; ".join(coq_dstmt(s, shapes) for s in stmts) + "]"
-
-
-def coq_dstmt(s, shapes):
-    if s[0] == "as":
-        return f"(DAssign {G.coq_expr(s[1], shapes)} {G.coq_expr(s[2], shapes)})"
-    if s[0] == "if":
-        brs = "[" + "; ".join(f"({G.coq_expr(c, shapes)}, {coq_dstmts(b, shapes)})" for c, b in s[1]) + "]"
-        return f"(DIf {brs} {blit(s[2])} {coq_dstmts(s[3], shapes)})"
-    if s[0] == "switch":
-        cs = []
-        for ps, b in s[2]:
-            pp = "None" if ps is None else "(Some [" + "; ".join(G.coq_pattern(p) for p in ps) + "])"
-            cs.append(f"({pp}, {coq_dstmts(b, shapes)})")
-        return f"(DSwitch {G.coq_expr(s[1], shapes)} [" + "; ".join(cs) + "])"
-    raise ValueError(s[0])
-
-
-def gen_events(rng, pg, n):
-    evs = []
-    for _ in range(n):
-        c = rng.random()
-        if c < 0.5 and pg.inputs:
-            i = rng.choice(pg.inputs)
-            evs.append(["set", i, G.rand_value(rng, *pg.shapes[i])])
-        elif c < 0.9 and pg.syncs:
-            evs.append(["tick"])
-        elif pg.syncs:
-            evs.append(["set", pg.rst, rng.randrange(2)])
-        elif pg.inputs:
-            i = rng.choice(pg.inputs)
-            evs.append(["set", i, G.rand_value(rng, *pg.shapes[i])])
-    return evs
+    def case(self, mods, evs, **kw):
+        return dict({"shapes": self.shapes, "inits": self.inits, "rl": self.rl, "nbase": self.nbase, "doms": self.doms,
+                     "mods": mods, "parent": self.parent, "named": self.named, "evs": evs, "nsig": len(self.shapes),
+                     "nfsm": len(self.fsms)}, **kw)
 
 
 def gen_cases(tier, seed):
     rng = random.Random(seed + 2)
     thorough = tier == "thorough"
     cases = []
-    N = 700 if not thorough else 12000
+    N = 520 if not thorough else 9000
     for i in range(N):
-        pg = PGen(rng, rng.randrange(1, 4), rng.randrange(0, 3), rng.randrange(0, 3))
+        ndom = rng.choice([1, 1, 1, 2, 2, 3])
+        nmod = rng.choice([1, 1, 1, 2, 2, 3])
+        pg = PGen(rng, rng.randrange(1, 4), rng.randrange(0, 3), rng.randrange(0, 3), ndom, nmod)
         if not pg.combs and not pg.syncs:
             continue
-        prog = pg.stmts(rng.randrange(1, 4), n=rng.randrange(1, 5))
-        has_fsm = bool(pg.syncs) and rng.random() < 0.4
-        if has_fsm:
-            prog.insert(rng.randrange(0, len(prog) + 1), pg.add_fsm())
-        evs = gen_events(rng, pg, rng.randrange(12, 25))
-        base = {"shapes": pg.shapes, "inits": pg.inits, "rl": pg.rl, "prog": prog, "evs": evs,
-                "nsig": len(pg.shapes), "rst": pg.rst, "has_sync": bool(pg.syncs)}
-        cases.append(dict(base, k="dsl", shape="fsm" if has_fsm else "rnd"))
-        if i % 3 == 0 and not has_fsm:
-            cases.append(dict(base, k="stmts", shape="rnd"))
-        if pg.combs and i % 2 == 0 and not has_fsm:
-            cases.append(dict(base, k="combspec", shape="rnd", driven=pg.combs,
-                              evs=[e for e in evs if e[0] == "set" and e[1] != pg.rst]))
+        has_fsm = bool(pg.doms) and rng.random() < 0.45
+        fsm_mod = rng.randrange(nmod) if has_fsm else None
+        mods = [pg.module(k, k == fsm_mod) for k in range(nmod)]
+        evs = pg.events(rng.randrange(10, 20))
+        shape = ("fsm" if has_fsm else "rnd") + (f"{nmod}m" if nmod > 1 else "") + (f"{len(pg.doms)}d" if len(pg.doms) > 1 else "")
+        cases.append(pg.case(mods, evs, k="dsl", shape=shape))
+        if i % 3 == 0:
+            cases.append(pg.case(mods, evs, k="stmts", shape="fsm" if has_fsm else "rnd"))
+        if pg.combs and i % 2 == 0 and not has_fsm and nmod == 1:
+            cases.append(pg.case(mods, [e for e in evs if all(x[0] in pg.inputs for x in e)], k="combspec", shape="rnd",
+                                 driven=pg.combs))
+    # malformed designs: one defect each, compared on the exception class
+    kinds = ["badpat_len", "badpat_char", "next_outside", "undef_next", "undef_pre", "dup_state", "bad_init", "undef_init"]
+    for i in range(64 if not thorough else 600):
+        kind = kinds[i % len(kinds)]
+        pg = PGen(rng, rng.randrange(1, 3), rng.randrange(1, 3), rng.randrange(1, 3), 1, 1, plain=True)
+        prog = pg.module(0, True)
+        f = pg.fsms[0]
+        if kind in ("undef_next", "dup_state", "bad_init", "undef_init", "undef_pre") and not f["states"]:
+            f["states"].append([0, []]); f["og"].append([0, len(pg.shapes)])
+            pg.shapes.append([1, False]); pg.inits.append(0); pg.rl.append(False)
+        if kind == "badpat_len":
+            t = ["s", pg.inputs[0]]
+            w = pg.shapes[pg.inputs[0]][0]
+            prog.insert(rng.randrange(len(prog) + 1), ["switch", t, [[["0" * (w + 1) if rng.random() < 0.5 else "1" * max(0, w - 1) + " "], []]]])
+        elif kind == "badpat_char":
+            t = ["s", pg.inputs[0]]
+            w = pg.shapes[pg.inputs[0]][0]
+            prog.insert(rng.randrange(len(prog) + 1), ["switch", t, [[[0], []], [[("x" * w) or "x"], []]]])
+        elif kind == "next_outside":
+            where = rng.randrange(len(prog) + 1)
+            st = ["next", 0]
+            if rng.random() < 0.5:
+                st = ["if", [[["s", pg.inputs[0]], [st]]], False, []]
+            prog.insert(where, st)
+        elif kind == "undef_next":
+            rng.choice(f["states"])[1].append(["next", 7])
+        elif kind == "undef_pre":
+            f["pre"].append(7)
+        elif kind == "dup_state":
+            f["states"].append([f["states"][0][0], []])
+        elif kind == "bad_init":
+            f["init"] = 8                       # never referenced: KeyError when the FSM is closed
+        elif kind == "undef_init":
+            f["init"] = 7
+            rng.choice(f["states"])[1].append(["next", 7])     # referenced but not defined: NameError comes first
+        cases.append(pg.case([prog], [], k="bad", shape=kind))
     # exhaustive small family: two assignments to two 2-bit comb signals under one 1-bit condition
-    shapes = [[1, False], [2, False], [2, False], [2, False], [1, False]]     # c, x | a, b | rst
+    shapes = [[1, False], [2, False], [2, False], [2, False]]     # c, x | a, b
     tg = [["s", 2], ["s", 3], ["sl", ["s", 2], 0, 1], ["sl", ["s", 3], 1, 2], ["cat", [["s", 2], ["s", 3]]],
           ["pt", ["s", 2], ["s", 0], 1, 1]]
     rhs = [["s", 1], ["c", 2, 2, False], ["o1", "~", ["s", 1]]]
-    evs = [["set", 0, c] for c in (0, 1)] + [["set", 1, v] for v in range(4)] + [["set", 0, 0]] + [["set", 1, 1]]
+    evs = [[[0, c]] for c in (0, 1)] + [[[1, v]] for v in range(4)] + [[[0, 0]]] + [[[1, 1]]]
+    base = {"shapes": shapes, "inits": [0, 0, 1, 2], "rl": [False] * 4, "nbase": 4, "doms": [], "parent": [None],
+            "named": [False], "evs": evs, "nsig": 4, "nfsm": 0}
     for t1 in tg:
         for t2 in tg:
             for r1 in rhs:
                 for wrap in ("plain", "if", "ifelse"):
-                    a1, a2 = ["as", "comb", t1, r1], ["as", "comb", t2, ["s", 1]]
+                    a1, a2 = ["as", 0, t1, r1], ["as", 0, t2, ["s", 1]]
                     if wrap == "plain":
                         prog = [a1, a2]
                     elif wrap == "if":
                         prog = [a1, ["if", [[["s", 0], [a2]]], False, []]]
                     else:
                         prog = [["if", [[["s", 0], [a1]]], True, [a2]]]
-                    base = {"shapes": shapes, "inits": [0, 0, 1, 2, 0], "rl": [False] * 5, "prog": prog, "evs": evs,
-                            "nsig": 5, "rst": 4, "has_sync": False}
-                    cases.append(dict(base, k="dsl", shape="ex"))
-                    cases.append(dict(base, k="combspec", shape="ex", driven=[2, 3]))
+                    cases.append(dict(base, mods=[prog], k="dsl", shape="ex"))
+                    cases.append(dict(base, mods=[prog], k="combspec", shape="ex", driven=[2, 3]))
     # aliased targets (a signal named twice inside one target): specification = addressed bits (what the netlist and
-    # testbench writes do); the simulator's read-modify-write code writes the stale alias back (known finding F9)
-    sh = [[1, False], [2, False], [2, False], [1, False]]        # x | a, b | rst
-    ev2 = [["set", 0, 1], ["set", 0, 0], ["set", 0, 1]]
+    # testbench writes do); the simulator's read-modify-write code writes the stale alias back (known finding F9).
+    # Both semantics are modelled; the observation must equal one of them exactly.
+    sh = [[1, False], [2, False], [2, False]]        # x | a, b
+    ev2 = [[[0, 1]], [[0, 0]], [[0, 1]]]
     alias_targets = [["sl", ["cat", [["s", 1], ["sl", ["s", 1], 0, 1]]], 0, 1],
                      ["sl", ["cat", [["sl", ["s", 1], 0, 1], ["s", 1]]], 0, 1],
-                     ["pt", ["cat", [["s", 1], ["s", 2], ["s", 1]]], ["c", 0, 1, False], 1, 1]]
+                     ["pt", ["cat", [["s", 1], ["s", 2], ["s", 1]]], ["c", 0, 1, False], 1, 1],
+                     ["sl", ["cat", [["s", 1], ["s", 1]]], 1, 3],
+                     ["sl", ["cat", [["s", 1], ["s", 2], ["s", 1]]], 1, 5],
+                     ["pt", ["cat", [["s", 2], ["s", 2]]], ["s", 0], 2, 2],
+                     ["sl", ["o1", "u", ["cat", [["s", 1], ["s", 1]]]], 0, 3]]
     for t in alias_targets:
-        base = {"shapes": sh, "inits": [0, 0, 0, 0], "rl": [False] * 4, "prog": [["as", "comb", t, ["s", 0]]],
-                "evs": ev2, "nsig": 4, "rst": 3, "has_sync": False}
-        cases.append(dict(base, k="aliasspec", shape="alias", driven=[1, 2]))
+        for rh in (["s", 0], ["o1", "~", ["cat", [["s", 0], ["s", 0], ["s", 0]]]]):
+            cases.append(dict(base, shapes=sh, inits=[0, 0, 0], rl=[False] * 3, nbase=3, nsig=3, evs=ev2,
+                              mods=[[["as", 0, t, rh]]], k="alias", shape="alias", driven=[1, 2]))
     return cases
 
 
 def known_finding(c, obs, model):
-    if c["k"] == "aliasspec":
+    """F9 only when the observation is EXACTLY what the model of the simulator's read-modify-write code predicts (and
+    differs from the per-bit specification); anything else in an alias case is a violation"""
+    if c["k"] != "alias" or -99 not in obs or -99 not in model:
+        return None
+    o = obs[:obs.index(-99)]
+    spec, rmw = model[:model.index(-99)], model[model.index(-99) + 1:]
+    if o == rmw and o != spec:
         return "F9-rtl-lhs-alias-rmw"
     return None
 
 
-def build_module(c):
+# ------------------------------------------------------------------ the real design
+def build_design(c):
+    import enum
     from amaranth.hdl import Signal, Shape, Module, ClockDomain
     shapes = c["shapes"]
-    sigs = [Signal(Shape(w, bool(s)), name=f"x{k}", init=c["inits"][k], reset_less=bool(c["rl"][k]))
-            for k, (w, s) in enumerate(shapes[:c["rst"]])]
-    m = Module()
-    cd = ClockDomain("sync")
-    m.domains.sync = cd
-    nbase = c["rst"]
-    sigs = sigs[:nbase] + [cd.rst] + [None] * (len(shapes) - nbase - 1)
+    sigs = [None] * len(shapes)
+    cds = []
+    special = {}
+    for d in c["doms"]:
+        cd = ClockDomain(d["name"], clk_edge="pos" if d["pos"] else "neg", reset_less=d["rst"] is None,
+                         async_reset=bool(d["async"]))
+        cds.append(cd)
+        special[d["clk"]] = cd.clk
+        if d["rst"] is not None:
+            special[d["rst"]] = cd.rst
+    for k in range(c["nbase"]):
+        if k in special:
+            sigs[k] = special[k]
+        else:
+            w, s = shapes[k]
+            sigs[k] = Signal(Shape(w, bool(s)), name=f"x{k}", init=c["inits"][k], reset_less=bool(c["rl"][k]))
+    mods = [Module() for _ in c["mods"]]
+    for cd in cds:
+        setattr(mods[0].domains, cd.name, cd)
+    for k in range(1, len(mods)):
+        if c["named"][k]:
+            setattr(mods[c["parent"][k]].submodules, f"sub{k}", mods[k])
+        else:
+            mods[c["parent"][k]].submodules += mods[k]
+    fsms = []
+    enums = {}
 
-    def emit(stmts):
+    def pattern(p):
+        if isinstance(p, list):              # Enum member with that value
+            v = p[1]
+            if v not in enums:
+                enums[v] = enum.Enum(f"E{len(enums)}", {"M": v})
+            return enums[v].M
+        return p
+
+    def dname(d):
+        return "comb" if d == 0 else c["doms"][d - 1]["name"]
+
+    def emit(m, stmts):
         for s in stmts:
             if s[0] == "fsm":
                 f = s[1]
-                kw = {} if f["init"] is None else {"init": f["init"]}
-                with m.FSM(domain="sync", **kw) as fsm:
-                    early = {nm: fsm.ongoing(nm) for nm in f["pre"]}
+                kw = {} if f["init"] is None else {"init": f"S{f['init']}"}
+                og = dict(map(tuple, f["og"]))
+                with m.FSM(domain=dname(f["dom"]), **kw) as fsm:
+                    for nm in f["pre"]:
+                        h = fsm.ongoing(f"S{nm}")
+                        if nm in og:
+                            sigs[og[nm]] = h
                     for nm, body in f["states"]:
-                        with m.State(nm):
-                            emit(body)
-                sigs[f["st"]] = fsm.state
-                for nm, k in f["og"].items():
+                        with m.State(f"S{nm}"):
+                            emit(m, body)
+                sigs[f["reg"]] = fsm.state
+                for nm, k in og.items():
                     # ongoing() requested before the state is defined must be the signal the FSM drives: observe the
                     # early handle, and require the late one to be the same object
-                    sigs[k] = early.get(nm, fsm.ongoing(nm))
-                    if fsm.ongoing(nm) is not sigs[k]:
+                    h = fsm.ongoing(f"S{nm}")
+                    if sigs[k] is None:
+                        sigs[k] = h
+                    elif sigs[k] is not h:
                         raise AssertionError("ongoing() returned two different signals for one state")
+                fsms.append(fsm)
             elif s[0] == "next":
-                m.next = s[1]
+                m.next = f"S{s[1]}"
             elif s[0] == "as":
-                m.d[s[1]] += G.build(s[2], sigs).eq(G.build(s[3], sigs))
+                m.d[dname(s[1])] += G.build(s[2], sigs).eq(G.build(s[3], sigs))
             elif s[0] == "if":
                 for k, (cnd, body) in enumerate(s[1]):
                     ctx = m.If(G.build(cnd, sigs)) if k == 0 else m.Elif(G.build(cnd, sigs))
                     with ctx:
-                        emit(body)
+                        emit(m, body)
                 if s[2]:
                     with m.Else():
-                        emit(s[3])
+                        emit(m, s[3])
             elif s[0] == "switch":
                 with m.Switch(G.build(s[1], sigs)):
                     for pats, body in s[2]:
                         if pats is None:
                             with m.Default():
-                                emit(body)
+                                emit(m, body)
                         else:
-                            with m.Case(*pats):
-                                emit(body)
-    emit(c["prog"])
-    return m, sigs, cd
+                            with m.Case(*[pattern(p) for p in pats]):
+                                emit(m, body)
+    for m, prog in zip(mods, c["mods"]):
+        emit(m, prog)
+    return mods, sigs, cds, fsms
 
 
 def run_impl(c):
-    from amaranth.hdl import Fragment
+    import warnings
+    from amaranth.hdl import Cat
     from amaranth.sim import Simulator
+    warnings.simplefilter("ignore")
     try:
-        m, sigs, cd = build_module(c)
+        mods, sigs, cds, fsms = build_design(c)
+        for m in mods:
+            m._flush()                       # close pending If/Switch/FSM constructs: their exceptions are build-time ones
     except Exception as ex:
-        if type(ex).__name__ in ("TypeError", "ValueError", "IndexError", "SyntaxError"):
-            return [0]
-        return [-1, sum(map(ord, type(ex).__name__))]
+        name = type(ex).__name__
+        if name in ECODE:
+            return [0, ECODE[name]]
+        return [-1, sum(map(ord, name))]
     try:
         out = [1]
-        read = sigs if c["k"] not in ("combspec", "aliasspec") else [sigs[i] for i in c["driven"]]
-        sim = Simulator(m)
+        if c["k"] == "dsl":
+            for fsm in fsms:
+                sh = fsm.state.shape()
+                out += [sh.width, int(sh.signed), int(fsm.state.init)]
+        read = sigs if c["k"] in ("dsl", "stmts") else [sigs[i] for i in c["driven"]]
+        if any(s is None for s in read):
+            raise AssertionError("a signal of the design was never created")
+        sim = Simulator(mods[0])
 
         async def tb(ctx):
             out.extend(ctx.get(s) for s in read)
             for ev in c["evs"]:
-                if ev[0] == "set":
-                    ctx.set(sigs[ev[1]], ev[2])
+                if len(ev) == 1:
+                    ctx.set(sigs[ev[0][0]], ev[0][1])
                 else:
-                    ctx.set(cd.clk, 1)
-                    ctx.set(cd.clk, 0)
+                    ctx.set(Cat(sigs[i] for i, _ in ev), sum((v & 1) << k for k, (_, v) in enumerate(ev)))
                 out.extend(ctx.get(s) for s in read)
         sim.add_testbench(tb)
         sim.run()
+        if c["k"] == "alias":
+            return out + [-99] + out
         return out
     except Exception as ex:
         return [-1, sum(map(ord, type(ex).__name__))]
 
 
+# ------------------------------------------------------------------ the model's term
+PCH = {"0": "C0", "1": "C1", "-": "CDash", " ": "CSpace", "\t": "CTab"}
+
+
+def coq_rawpat(p):
+    if isinstance(p, str):
+        return "RStr [" + "; ".join(PCH.get(ch, "COther") for ch in p) + "]"
+    if isinstance(p, list):
+        return f"RInt {z(p[1])}"
+    return f"RInt {z(p)}"
+
+
+def coq_rstmts(stmts, shapes):
+    return "[" + "; ".join(coq_rstmt(s, shapes) for s in stmts) + "]"
+
+
+def coq_rstmt(s, shapes):
+    if s[0] == "as":
+        return f"(RAssign {s[1]} {G.coq_expr(s[2], shapes)} {G.coq_expr(s[3], shapes)})"
+    if s[0] == "if":
+        brs = "[" + "; ".join(f"({G.coq_expr(c, shapes)}, {coq_rstmts(b, shapes)})" for c, b in s[1]) + "]"
+        return f"(RIf {brs} {blit(s[2])} {coq_rstmts(s[3], shapes)})"
+    if s[0] == "switch":
+        cs = []
+        for ps, b in s[2]:
+            pp = "None" if ps is None else "(Some [" + "; ".join(coq_rawpat(p) for p in ps) + "])"
+            cs.append(f"({pp}, {coq_rstmts(b, shapes)})")
+        return f"(RSwitch {G.coq_expr(s[1], shapes)} [" + "; ".join(cs) + "])"
+    if s[0] == "next":
+        return f"(RNext {s[1]})"
+    raise ValueError(s[0])
+
+
+def coq_items(prog, shapes):
+    out = []
+    for s in prog:
+        if s[0] == "fsm":
+            f = s[1]
+            init = "None" if f["init"] is None else f"(Some {f['init']}%nat)"
+            pre = "[" + "; ".join(f"{x}%nat" for x in f["pre"]) + "]"
+            states = "[" + "; ".join(f"({nm}%nat, {coq_rstmts(b, shapes)})" for nm, b in f["states"]) + "]"
+            og = "[" + "; ".join(f"({nm}%nat, {k}%nat)" for nm, k in f["og"]) + "]"
+            out.append(f"IFsm (RFsm {f['reg']} {f['dom']} {init} {pre} {states} {og})")
+        else:
+            out.append(f"IStmt {coq_rstmt(s, shapes)}")
+    return "[" + "; ".join(out) + "]"
+
+
 def coq_events(evs):
-    return "[" + "; ".join(f"EvSet {e[1]} {z(e[2])}" if e[0] == "set" else "EvTick" for e in evs) + "]"
+    return "[" + "; ".join("[" + "; ".join(f"({i}%nat, {z(v)})" for i, v in ev) + "]" for ev in evs) + "]"
 
 
-def coq_sigs(c):
-    return "[" + "; ".join(f"SD {z(w)} {blit(s)} {z(c['inits'][k])} {blit(c['rl'][k])}"
-                           for k, (w, s) in enumerate(c["shapes"])) + "]"
+def coq_sigs(shapes, inits, rl):
+    return "[" + "; ".join(f"SD {z(w)} {blit(s)} {z(inits[k])} {blit(rl[k])}" for k, (w, s) in enumerate(shapes)) + "]"
+
+
+def coq_doms(c):
+    return "[" + "; ".join(f"DomDesc {d['clk']} {blit(d['pos'])} " + ("None" if d["rst"] is None else f"(Some {d['rst']}%nat)")
+                           + f" {blit(d['async'])}" for d in c["doms"]) + "]"
 
 
 def coq_term(c):
     shapes = c["shapes"]
-    rst = f"(Some {c['rst']}%nat)" if c["has_sync"] else "None"
-    if c["k"] == "dsl":
-        comb = coq_dstmts(project(c["prog"], "comb", shapes), shapes)
-        sync = coq_dstmts(project(c["prog"], "sync", shapes), shapes)
-        return f"k_dsl {coq_sigs(c)} {comb} {sync} {rst} {coq_events(c['evs'])}"
-    if c["k"] in ("combspec", "aliasspec"):
-        comb = coq_dstmts(project(c["prog"], "comb", shapes), shapes)
+    nb = c["nbase"]
+    base = coq_sigs(shapes[:nb], c["inits"], c["rl"])
+    if c["k"] in ("dsl", "bad"):
+        mods = "[" + "; ".join(coq_items(p, shapes) for p in c["mods"]) + "]"
+        return f"k_design {base} {coq_doms(c)} {mods} {coq_events(c['evs'])}"
+    if c["k"] in ("combspec", "alias"):
         drv = "[" + "; ".join(f"{i}%nat" for i in c["driven"]) + "]"
-        fn = "k_comb_spec" if c["k"] == "combspec" else "k_comb_spec_alias"
-        return f"{fn} {coq_sigs(c)} {comb} {drv} {coq_events(c['evs'])}"
+        fn = "k_comb_spec" if c["k"] == "combspec" else "k_comb_alias"
+        return f"{fn} {base} {coq_rstmts(c['mods'][0], shapes)} {drv} {coq_events(c['evs'])}"
     if c["k"] == "stmts":
-        # statements as lowered by the REAL Module, serialised from the elaborated fragment
-        import astser
+        # statements as lowered by the REAL Modules, serialised from the elaborated fragments (one per module); the signals
+        # the FSM creates are described from the real objects
+        import astser, warnings
         from amaranth.hdl import Fragment
-        m, sigs, cd = build_module(c)
-        frag = Fragment.get(m, None)
+        warnings.simplefilter("ignore")
+        mods, sigs, cds, fsms = build_design(c)
         sm = astser.SigMap(sigs)
-        doms = {d: astser.ser_stmts(st, sm) for d, st in frag.statements.items()}
+        names = ["comb"] + [d["name"] for d in c["doms"]]
+        out = []
+        for m in mods:
+            frag = Fragment.get(m, None)
+            doms = {d: astser.ser_stmts(st, sm) for d, st in frag.statements.items()}
+            if set(doms) - set(names):
+                raise ValueError("unexpected domain in an elaborated fragment")
+            out.append(doms)
         if len(sm.signals) != len(sigs):
             raise ValueError("unexpected extra signal in elaborated fragment")
-        comb = astser.coq_stmts(doms.get("comb", []), shapes)
-        sync = astser.coq_stmts(doms.get("sync", []), shapes)
-        return f"k_stmts {coq_sigs(c)} {comb} {sync} {rst} {coq_events(c['evs'])}"
+        rshapes = sm.shapes()
+        rinits = [int(s.init) for s in sm.signals]
+        rrl = [bool(s.reset_less) for s in sm.signals]
+        design = "[" + "; ".join("[" + "; ".join(astser.coq_stmts(doms.get(nm, []), rshapes) for nm in names) + "]"
+                                 for doms in out) + "]"
+        return f"k_stmts {coq_sigs(rshapes, rinits, rrl)} {coq_doms(c)} {design} {coq_events(c['evs'])}"
     raise ValueError(c["k"])
 
 
 def explain(c):
-    return ("answers: [1] then, initially and after every event (set of an input / reset, or a clock tick), the values of all "
-            "signals (k=dsl, k=stmts) or of the comb-driven signals (k=combspec: per-bit last-active-assignment-wins over init)")
+    return ("answers: k=dsl: [1], per FSM (register width, signed, init), then initially and after every event (one or several "
+            "signals set at once: inputs, clocks, resets) the values of all signals; [0, class] when building raises (0 Type/Value/"
+            "IndexError, 1 SyntaxError, 2 NameError, 3 KeyError); [2] when the model's settle loop does not converge. k=stmts: the same "
+            "trace from amaranth's own lowered statements. k=combspec: the comb-driven signals per the per-bit last-active-assignment-"
+            "wins-over-init specification. k=alias: observed ++ [-99] ++ observed against spec ++ [-99] ++ simulator-RMW model")
